@@ -240,6 +240,18 @@ def main(args, script):
 
 
 RULES = {
+    "c08": "a case is one executed variant (clean / fault@k for every call-back k / natural invalidity at every position) of a seeded base scenario "
+           "(evaluations = variants executed, 'scenarios' = base scenarios); distinct_nontrivial counts distinct (operation, key form, value form, "
+           "table value shape, variant kind, outcome, exception type, target kind, value class) tuples; per scenario the fault points are enumerated completely",
+    "c09": "even run indices: one seeded join case (tables, key spec by name / column object / equal vector) compared with the nested-loop definition; "
+           "odd run indices: a seeded history (tables, views, writes to key columns, inner joins) under identity reuse in which every inner_join result is "
+           "compared with the definition over the operands' current contents; the whole index range is re-executed under 3 more PYTHONHASHSEED values and "
+           "digests compared; distinct_nontrivial counts distinct case shapes (number/kinds of keys, result size bucket, duplicates, empty sides, None keys) "
+           "plus the abstract situations of the history part",
+    "c12": "even run indices: one seeded aggregate case (keys in / outside the table, built-ins, instrumented apply callbacks incl. in-place mutating ones and "
+           "a planned failure) compared with group-by-hand, reductions with the single-group aggregate; odd run indices: seeded histories with writes to key / "
+           "value columns and aggregates under identity reuse, every aggregate compared with group-by-hand over current contents; whole range re-executed "
+           "under 3 more PYTHONHASHSEED values; distinct_nontrivial as for c09",
     "history": "seeded swarm histories over the public API (one PRNG per run from sha256(VERIF_SEED:check:run_index)); "
                "a case is one run; distinct_nontrivial counts distinct abstract situations reached by a non-skipped step: "
                "hash of (operation, key form, value form, sub-function, fault planned?, identity policy, outcome, exception type, "
@@ -258,6 +270,7 @@ def write_evidence(prop, spec, tier, seed, agg, wall, wall_runs, resample, known
         "samples": agg.samples[:3] or [{"note": "no violation-free sample kept"}],
         "runs_per_hour": round(agg.runs / max(wall_runs, 1e-9) * 3600),
         "seeds": {"verif_seed": seed, "first_run_index": 0, "count": agg.runs},
+        "scenarios": agg.runs,
         "steps_total": agg.steps,
         "simulated_time": "logical steps only (%d); serif has no clock" % agg.steps,
         "faults_fired": st.get("faults", {}),
